@@ -303,7 +303,7 @@ func checkC02(p *core.Program, r *core.Report) {
 	// ---- R6 what the reader may leave unset, the writer tolerates
 	r.Rule("R7", "a reference the engine writes is a reference the reader accepts: the reference to an asset (assets.<X>Reference, persisted in events, tickets and runs) is built from the asset without validation and validated when read back, so the `validate` tag on its UUID accepts every UUID the asset's own definition (assets/static) accepts for the same UUID type — `uuid4` on the reference against `uuid` on the asset makes a session that used such an asset unreadable")
 	c02R7(p, r)
-	r.Rule("R8", "reading back never indexes out of range: the index obligations over flows/engine and flows/runs — which hold the session, run and legacy-context readers — are obligations here too (imported from C05/R7): a persisted session the live one continues from must not panic its reader")
+	r.Rule("R8", "reading back never indexes out of range: the index obligations over the engine packages — among them flows/engine and flows/runs, which hold the session, run and legacy-context readers — are obligations here too (imported from C05/R7): a persisted session the live one continues from must not panic its reader")
 	importObligations(p, r, "C05", map[string]bool{"R7": true}, "R8", "the persisted session cannot be read back (the reader panics) although the live session carries on")
 	r.Rule("R6", "reader and writer agree on what may be absent: a pointer field that the read side stores only under a presence test is dereferenced by the marshal side only under a nil test (otherwise a restored object cannot be persisted again)")
 	{
